@@ -68,6 +68,8 @@ def strategy(tier):
         # event: the second one must be handled and acknowledged as usual
         st.fixed_dictionaries({'op': st.just('fault_ev'), 'ns': nsi,
                                'binary': st.booleans(),
+                               'exc': st.sampled_from(['__raise__',
+                                                       '__raise_type__']),
                                'id': st.one_of(st.none(), st.integers(0, 4)),
                                'id2': st.integers(0, 4)}),
         st.fixed_dictionaries({'op': st.just('emit_cb'), 'ns': nsi,
@@ -135,6 +137,8 @@ def _run(case, h):
             if isinstance(a, dict) and set(a) == {'__tag'}:
                 if rets[a['__tag']] == '__raise__':
                     raise RuntimeError('application handler fault')
+                if rets[a['__tag']] == '__raise_type__':
+                    raise TypeError('application handler fault')
                 return rets[a['__tag']]
         return None
 
@@ -305,7 +309,7 @@ def _run(case, h):
             dirs.add('in')
             nlog = len(log)
             tag[0] += 1
-            rets[tag[0]] = '__raise__'
+            rets[tag[0]] = op.get('exc', '__raise__')
             t1 = tag[0]
             for f in wire.frames(wire.EVENT, ns, op['id'],
                                  ['a', {'__tag': t1}] + (
